@@ -443,6 +443,13 @@ class Degrees:
             return None
         if isinstance(node, ast.IfExp):
             self.ev(node.test, env, f)
+            # `A if x != 0.0 else B`: the arm selected by an EXACT zero handles a degenerate input (0 scales to 0, no scaling argument applies to it); it is
+            # the statement form `t = B; if x != 0.0: t = A`, which joins without a homogeneity claim as well.  The result has the degree of the regular arm.
+            t = node.test
+            if isinstance(t, ast.Compare) and len(t.ops) == 1 and isinstance(t.ops[0], (ast.Eq, ast.NotEq)) \
+                    and any(isinstance(x, ast.Constant) and x.value in (0, 0.0) and not isinstance(x.value, bool) for x in (t.left, t.comparators[0])):
+                a, b = self.ev(node.body, env, f), self.ev(node.orelse, env, f)
+                return a if isinstance(t.ops[0], ast.NotEq) else b
             return self._same(self.ev(node.body, env, f), self.ev(node.orelse, env, f), f, node, "conditional expression")
         if isinstance(node, (ast.Tuple,)):
             return tuple(self.ev(e, env, f) for e in node.elts)
